@@ -11,10 +11,15 @@ LEVEL = "fault_enumeration"
 RULE = ("every outcome sequence of length L (L=6 quick, 8 thorough; all shorter histories are prefixes) over "
         "{ok, 404, 500-permanent, connection exception, transient-500-then-ok} for 1..4 nodes, verbs cycled; "
         "oracle: the i-th request made on the multi-node client goes to node i mod n (retries of one request "
-        "stay on its node). Non-trivial: a failure is followed by another request and n>=2. Distinct = (n, sequence).")
+        "stay on its node); plus hypothesis-sampled sequences of length <=12 with more failure kinds (read timeout, "
+        "non-list JSON error body, 401, arbitrary exception from the transport) and request styles (verb helpers, raw request, "
+        "stream=True, params, timeout). Non-trivial: a failure is followed by another request and n>=2. Distinct = (n, sequence).")
 
 J = "application/json"
 OUTCOMES = ["ok", "404", "500", "exc", "retry-ok"]
+# sampled part: more failure kinds and request styles (the way the request is issued must not matter either)
+MORE_OUTCOMES = OUTCOMES + ["read-timeout", "bad-json-error", "401", "runtime-error"]
+STYLES = ["verb", "verb", "stream", "params", "timeout", "raw-request"]
 URIS = ["http://a:1", "http://b:2", "http://c:3", "http://d:4"]
 VERBS = ["get", "post", "put", "delete"]
 
@@ -41,6 +46,14 @@ def oracle(case):
             return fake_http.make_response(500, b'[{"kind":"permanent","id":"node.bad"}]', J)
         if o == "exc":
             return requests.exceptions.ConnectionError("refused")
+        if o == "read-timeout":
+            return requests.exceptions.ReadTimeout("slow")
+        if o == "runtime-error":
+            return RuntimeError("socket layer")
+        if o == "401":
+            return fake_http.make_response(401, b'[]', J)
+        if o == "bad-json-error":  # a 500 whose JSON body is not an error list
+            return fake_http.make_response(500, b'{"error":"x"}', J)
         if state["sub"] == 0:
             state["sub"] = 1
             return fake_http.make_response(500, b'[{"kind":"temporary","id":"node.busy"}]', J)
@@ -53,14 +66,27 @@ def oracle(case):
             state["req"], state["sub"] = i, 0
             before = len(script.calls)
             verb = VERBS[i % 4]
+            style = (case.get("styles") or ["verb"] * len(seq))[i]
+            path = "chains/main/blocks/head"
             try:
-                getattr(node, verb)("chains/main/blocks/head")
+                if style == "stream":
+                    node.request("GET", path, stream=True)
+                elif style == "params":
+                    node.get(path, params={"a": "1"})
+                elif style == "timeout":
+                    node.get(path, timeout=3)
+                elif style == "raw-request":
+                    node.request(verb.upper(), path)
+                else:
+                    getattr(node, verb)(path)
                 failed = False
             except (RpcError, requests.exceptions.ConnectionError):
                 failed = True
             except Exception as e:
-                raise Violation("request %d (%s) raised %r" % (i, o, e), case, "unexpected-exception")
-            if failed != (o in ("404", "500", "exc")):
+                if o not in ("read-timeout", "bad-json-error", "runtime-error"):
+                    raise Violation("request %d (%s) raised %r" % (i, o, e), case, "unexpected-exception")
+                failed = True
+            if failed != (o in ("404", "500", "exc", "read-timeout", "bad-json-error", "401", "runtime-error")):
                 raise Violation("request %d outcome %s: failed=%s" % (i, o, failed), case, "outcome")
             urls = [c["url"] for c in script.calls[before:]]
             want = URIS[i % n]
@@ -76,8 +102,8 @@ def replay(case):
 def _prop(case, stats):
     oracle(case)
     seq = case["seq"]
-    nt = case["n"] >= 2 and any(o in ("404", "500", "exc") for o in seq[:-1])
-    stats.case(case, nt, "n=%d" % case["n"], sample=case)
+    nt = case["n"] >= 2 and any(o not in ("ok", "retry-ok") for o in seq[:-1])
+    stats.case(case, nt, ("styled:" if case.get("styles") else "") + "n=%d" % case["n"], sample=case)
 
 
 def run(h):
@@ -86,3 +112,8 @@ def run(h):
     h.exhaustive = True
     h.coverage_extra["exhaustive_subdomain"] = "all outcome sequences of length <=%d over 5 outcomes, 1..4 nodes" % L
     h.run_enum(items, _prop, shards=16)
+    from hypothesis import strategies as st
+    styled = st.integers(1, 12).flatmap(lambda k: st.fixed_dictionaries({
+        "n": st.integers(1, 4), "seq": st.lists(st.sampled_from(MORE_OUTCOMES), min_size=k, max_size=k),
+        "styles": st.lists(st.sampled_from(STYLES), min_size=k, max_size=k)}))
+    h.run_given(lambda: styled, _prop, h.n(150, 3000), shards=16, name="styled")
